@@ -217,6 +217,12 @@ def run(ck, facts, tier):
                          sample="%s(%s(x, 0))" % (resk, meth))
             except Unsupported as e:
                 ck.fail(r5, key, "rule could not be established (%s)" % e, where)
+    # the solved spline rests on the solver's structure and on the basis/derivative kernels: their rules are necessary conditions of this property too
+    from rules import c13, c14
+    nd, tb = list(ck.not_decided), list(ck.trusted)
+    c13.run(ck, facts, tier)
+    c14.run(ck, facts, tier)
+    ck.not_decided[:], ck.trusted[:] = nd, tb
     ck.not_decided += ["interpolation of the data and polynomial reproduction as numerical facts (they rest on C13's undecided numerical correctness of the solve)",
                        "sensitivity of the solved spline to each datum (linearity of the solve in y is structural: fdsolve is generic in T and only combines y linearly — not separately evaluated)"]
     ck.trusted += ["lib/cel.py", "lib/oracle.py composition formula (re-derived inline for the unary case)"]
